@@ -208,6 +208,27 @@ type objFnTL2 interface {
 }
 
 func init() {
+	// oresgen <function name> <request TL1 boxed hex> <seed>: a random result written by the function's own
+	// FillRandomResultTL1 (typed FillRandom of the result + WriteResultTL1 under the request) -> ok <hex> | writeerr | badrequest
+	ops["oresgen"] = func(f []string) string {
+		fn := factory.CreateFunctionFromName(f[1])
+		if fn == nil {
+			return "driver-error no function " + f[1]
+		}
+		if _, err := fn.ReadTL1Boxed(unhex(f[2])); err != nil {
+			return "badrequest"
+		}
+		seed, _ := strconv.ParseUint(f[3], 10, 64)
+		defer objWatch(20*time.Second, "FillRandomResultTL1 "+f[1])()
+		w, err := fn.FillRandomResultTL1(basictl.NewRandGenerator(&objRand{srand: srand{s: seed}, max: objDrawBudget}), nil)
+		if err != nil {
+			return "writeerr"
+		}
+		return "ok " + hx(w)
+	}
+}
+
+func init() {
 	// ores <function name> <request TL1 boxed hex> <result TL1 hex> <typed object name | ->
 	// result: ok <consumed> <TL1 -> JSON -> TL1 bytes | err> j=.. t2=.. x=.. typed=..
 	//   j:     TL1->JSON->TL1 reproduces the consumed result bytes            (same | diff | err)
